@@ -156,7 +156,7 @@ def chunksOf (size : Nat) : Nat → Bytes → List Bytes
 def bitsToElem (w : Nat) (msb : Bool) : Nat → List Bool → Nat
   | _, [] => 0
   | i, b :: bs =>
-    (if b then 2 ^ (if msb then w - 1 - i else i) else 0) + bitsToElem w msb (i + 1) bs
+    (if b then 2 ^ (if msb then w - 1 - i else i) else 0) ||| bitsToElem w msb (i + 1) bs
 
 /-- The `w` bits of one storage element, in sequence order. -/
 def elemToBits (w : Nat) (msb : Bool) (e : Nat) : List Bool :=
